@@ -17,5 +17,6 @@ func main() {
 	dbreplay.Main(rep, args, "C02", []dbreplay.Stage{
 		{Name: "rb-3pg-3ops-exhaustive", Cfg: core.Pick(args, "MC_DBFile_rb.cfg", "MC_DBFile_rb.cfg"), Timeout: 10 * time.Minute, MaxKeep: core.Pick(args, 600, 0)},
 		{Name: "rb-beyond-3pg-3ops-exhaustive", Cfg: "MC_DBFile_rb_beyond.cfg", Timeout: 10 * time.Minute, MaxKeep: core.Pick(args, 500, 0)},
+		{Name: "rb-drop-recreate-3pg-4ops-exhaustive", Cfg: "MC_DBFile_drop.cfg", Timeout: 10 * time.Minute, MaxKeep: core.Pick(args, 300, 0)},
 	})
 }
